@@ -52,6 +52,8 @@ def run(ses):
         if ses.tier == 'thorough': jobs.append((c04.job_vary, (p, 'assertion', 'none', 'some', 'none', 'some')))
         jobs.append((job_not_stored, (p,)))
     jobs += upper.assertion_jobs(ses.tier)
+    from .. import coreapi
+    jobs.append((coreapi.job_core_api, ()))        # newtype constructors, builder(), setters, Clone: what the caller writes reaches the entry point unchanged
     run_jobs(ses, jobs)
     ses.trusted_base = c04.TRUSTED + ['PAE length prefix le64 is injective (Kani leaf K1)']
     ses.assumptions = ['A, A\' arbitrary strings (absent == empty), footer symbolic as well so that different splits of one concatenation are inside the query']
@@ -59,4 +61,4 @@ def run(ses):
 
 confirm = c01.confirm
 replay = c01.replay
-BASELINE = ['setter']
+BASELINE = ['core_api', 'setter']
